@@ -921,6 +921,59 @@ def r_cache(m, rep, R):
                   '%s lambda calls scaffold as %s' % (kind, [show(x) for x in sc]))
 
 
+def r_items_immutable(m, rep, R):
+    """chart / agenda items are immutable records: every field of a cell_item comes from one initialiser list and is never
+    assigned afterwards (a field-wise update would let score, head and rule index of one item come from different grammar
+    results, and would change entries that parents already point at)."""
+    fields = set(m.item_fields)
+    n = 0
+    scopes = [('parse_sentence', m.ps), ('chart', m.decls['chart']), ('operator<', m.decls['operator<'])]
+    for name, scope in scopes:
+        for a in scope.walk():
+            tgt = None
+            if a.kind in ('BinaryOperator', 'CompoundAssignOperator') and a.op and (a.op == '=' or (a.op.endswith('=') and a.op not in ('==', '!=', '<=', '>='))):
+                tgt = strip(a.kids[0])
+            elif a.kind == 'UnaryOperator' and a.op in ('++', '--'):
+                tgt = strip(a.kids[0])
+            if tgt is None or tgt.kind != 'MemberExpr' or tgt.name not in fields:
+                continue
+            base = strip(tgt.kids[0]) if tgt.kids else None
+            btype = (base.type or '') if base is not None else ''
+            if 'cell_item' not in btype:
+                continue
+            n += 1
+            rep.violation(R, _w(a.line, name), 'item-immutable:%s' % tgt.name,
+                          'field `%s` of a chart/agenda item is assigned after the item was built (%s): items are no longer the record of one grammar result'
+                          % (tgt.name, show(term(a, m.env))[:90]))
+    for node, arg in m.opaque_pushes:
+        rep.violation(R, _w(node.line), 'item-immutable:staged-push',
+                      'an item reaches the agenda through a staging object (%s) instead of an initialiser list built at the push' % show(arg)[:40]) \
+            if n else None
+    if n == 0:
+        rep.ok(R, _w(m.ps.line), 'no field of a cell_item is assigned after construction (items are immutable records)')
+
+
+def r_ids_not_ordered(m, rep, R):
+    """category ids of derived categories depend on discovery order (history); they may be compared for equality and
+    hashed, but never ordered: the search order must depend on scores only."""
+    bad = []
+    scopes = [('parse_sentence', m.ps, m.env), ('operator<', m.decls['operator<'], None), ('chart', m.decls['chart'], None)]
+    n = 0
+    for name, scope, env in scopes:
+        e = env or cxx.Env(scope)
+        for a in scope.walk():
+            if a.kind == 'BinaryOperator' and a.op in ('<', '>', '<=', '>='):
+                n += 1
+                t = term(a, e)
+                for side in (t[2], t[3]):
+                    if any(x[0] == 'mem' and x[2] in ('cat', 'cat_id') for x in subterms(side)):
+                        bad.append((a.line, name, show(t)[:80]))
+    for line, name, txt in bad:
+        rep.violation(R, _w(line, name), 'ids-ordered:' + name, 'a category id takes part in an ordering comparison (%s): ids of derived categories depend on what was parsed before' % txt)
+    if not bad:
+        rep.ok(R, _w(m.ps.line), 'category ids are never ordered (%d ordering comparisons inspected): search order depends on scores only' % n)
+
+
 def r_nbest(m, rep, R):
     """sorted goal cell, finalizer over it in order with a fresh token counter, charts in n-best mode iff nbest > 1."""
     env = m.env
